@@ -49,6 +49,15 @@
 
 using namespace verif;
 
+// the wrapped distribution is compared with the std one only if it HAS the std one's type (a tree in
+// which it has another type is reported through the type-level facts, not by a compile error here)
+template <typename A, typename B>
+bool same_distribution(A const &a, B const &b)
+{
+  if constexpr (std::is_same_v<A, B>) return a == b;
+  else return false;
+}
+
 // Type-level facts about the wrappers (result types, wrapped distribution types, constexpr min/max of
 // the engines) are part of "transparent": they are checked where they are used, but as run-time
 // violations rather than static assertions, so that a tree in which one of them is false is reported
@@ -187,7 +196,7 @@ void diff_draws(
   int const how = pl.how % n_routes;
   switch (how)
   {
-  case 1: var = fcppt::optional::object<variate_t>(variate_t(fcppt::make_ref(fg), d)); break;
+  case 1: break; // built below, after the comparisons that need the fresh distribution
   case 2: var = fcppt::optional::object<variate_t>(variate_t(fcppt::make_ref(fg), p)); break;
   case 3: var = fcppt::optional::object<variate_t>(fr::make_variate(fcppt::make_ref(fg), fr::distribution::make_basic(p))); break;
   default: break;
@@ -198,7 +207,7 @@ void diff_draws(
     if (!same(unwrap(d.min()), sd.min()) || !same(unwrap(d.max()), sd.max()))
       fail("random::distribution::basic::min/max|differs-from-std|" + f,
            "min/max = " + show(unwrap(d.min())) + "/" + show(unwrap(d.max())) + ", std: " + show(sd.min()) + "/" + show(sd.max()));
-    if (!(d.distribution() == sd))
+    if (!same_distribution(d.distribution(), sd))
       fail("random::distribution::basic::distribution|differs-from-std|" + f, "wrapped distribution != std distribution with the same parameters");
     std::ostringstream o1, o2;
     o1 << d;
@@ -209,6 +218,19 @@ void diff_draws(
     SD const sother(sp2);
     if ((d == other) != (sd == sother) || (d != other) != (sd != sother) || !(d == d0) || (d != d0))
       fail("random::distribution::operator==|differs-from-std|" + f, "comparison of two distributions differs from comparing the std distributions");
+  }
+  if (how == 1)
+  {
+    // the distribution handed to the variate may have been used before (1 or 3 draws: a
+    // std::normal_distribution then holds a saved value): the variate copies it as it is, state included
+    int const before = static_cast<int>((seed >> 5) % 3) == 0 ? 0 : (static_cast<int>((seed >> 5) % 3) == 1 ? 1 : 3);
+    for (int i = 0; i < before; ++i)
+    {
+      B const a = unwrap(d(fg));
+      B const b = sd(sg);
+      if (!same(a, b)) fail("random::distribution::basic|sequence-differs|" + std::string(fam), "draw " + str(i) + " before the variate was built: got " + show(a) + ", std gives " + show(b));
+    }
+    var = fcppt::optional::object<variate_t>(variate_t(fcppt::make_ref(fg), d));
   }
   typename SD::param_type const sp1 = sd.param(); // the std reference's own parameter object
   bool seen_lo = false, seen_hi = false, reported = false, in_p2 = false;
@@ -230,7 +252,7 @@ void diff_draws(
           d.param(p2);
           sd.param(sp2);
           in_p2 = true;
-          if (!(d.distribution() == sd))
+          if (!same_distribution(d.distribution(), sd))
             fail("random::distribution::basic::param(set)|differs-from-std|" + f, "distribution after param(p2) != std distribution after param(p2)");
         }
       }
@@ -648,6 +670,9 @@ void real_case(Choices &c, u64 seed, int route)
   B const mn = decode_real<B>(c, false);
   B sup = static_cast<B>(mn + decode_real<B>(c, true));
   if (!(mn < sup)) sup = std::nextafter(mn, std::numeric_limits<B>::infinity());
+  // the degenerate but valid parameter set min == sup (std::uniform_real_distribution requires
+  // a <= b and then always yields a): transparency covers it, too
+  if ((seed >> 9) % 8 == 0) sup = mn;
   B const mn2 = decode_real<B>(c, false);
   B const sup2 = std::nextafter(static_cast<B>(mn2 + decode_real<B>(c, true)), std::numeric_limits<B>::infinity());
   using Param = fp::uniform_real<R>;
